@@ -660,6 +660,7 @@ class Gen:
                                             'force_merge', 'eval_pr',
                                             'create_branch',
                                             'delete_branch'])
+        self.only_new = kw.get('only_new', False)
         self.nsrc = 0
 
     def pick_pr(self, w, open_only=True):
@@ -677,6 +678,8 @@ class Gen:
             kind = rng.choices(names, [self.weights[n] for n in names])[0]
             op = self.make(kind, w)
             if op is not None:
+                if self.only_new and op.get('kind') in ('shared', 'ver'):
+                    op['kind'] = 'new'
                 op['dt'] = rng.choice([1, 1, 5, 30, 300])
                 return op
         return {'op': 'deliver_all', 'dt': 1}
